@@ -211,6 +211,20 @@ theorem apply_inv (C : ChainComp St Tx) (cfg : Cfg) (g : Header) (S : Store St T
     · exact hI.states r st hs
     · cases hs
   | restart => exact hI
+  | setHead keep head =>
+    refine ⟨?_, hI.states, ?_⟩
+    · intro h s hs
+      unfold Store.apply at hs
+      simp only [] at hs
+      split at hs
+      · exact hI.keys h s hs
+      · cases hs
+    · intro h s rs hs hrs
+      unfold Store.apply at hs
+      simp only [] at hs
+      split at hs
+      · exact hI.just h s rs hs hrs
+      · cases hs
 
 theorem run_inv (C : ChainComp St Tx) (cfg : Cfg) (g : Header) (S : Store St Tx) (hI : Inv C cfg g S) (evs : List (Event Tx)) :
     Inv C cfg g (S.run C cfg evs) := by
